@@ -44,7 +44,7 @@ pub open spec fn key_le(a: (DateTime, NodeIdx), b: (DateTime, NodeIdx)) -> bool 
 //@end
 
 // ---------------------------------------------------------------- successors
-//@skeleton model/src/network.rs Network::successors : arg range 0; closure 0 = ef5ee5c055b7d6fb
+//@skeleton model/src/network.rs Network::successors : arg range 0; closure 0 = e4f939b323e235b5
 //@frag model/src/network.rs Network::successors : arg range 0 as frag_successors_range
 //@params &self, node: NodeIdx
 //@ret (r: std::ops::RangeFrom<(DateTime, NodeIdx)>)
@@ -73,7 +73,7 @@ pub open spec fn key_le(a: (DateTime, NodeIdx), b: (DateTime, NodeIdx)) -> bool 
 //@end
 
 // ---------------------------------------------------------------- predecessors
-//@skeleton model/src/network.rs Network::predecessors : arg range 0; closure 0 = c8c057d1ea3850a1
+//@skeleton model/src/network.rs Network::predecessors : arg range 0; closure 0 = 32f16d435725aad3
 //@frag model/src/network.rs Network::predecessors : arg range 0 as frag_predecessors_range
 //@params &self, node: NodeIdx
 //@ret (r: std::ops::RangeToInclusive<(DateTime, NodeIdx)>)
